@@ -473,6 +473,13 @@ def run(ctx: Ctx) -> None:
         for k in [k for k in rep.floors if k.startswith("C13.")]:
             rep.floors["C05.R10/" + k] = rep.floors.pop(k)
     if rep.prop == "C05":
+        from .common import kinds_not_confused as _knc
+        rep.rule("C05.R17", "as C14.R12: the hash of a tracked variable is memoised under the canonical path of the variable, not under its local name (mypy kinds): two modules that "
+                            "name a variable alike do not share the hash of one value")
+        n17 = _knc(ctx, "C05.R17", ("dds.introspect", "dds._introspect_indirect", "dds._retrieve_objects", "dds._eval_ctx"),
+                   "LIMIT = 2 in one accepted module and LIMIT = 3 in another: the second function is keyed with the hash of the first value; changing its LIMIT changes no signature")
+        rep.floor("C05.R17", n17, 3)
+    if rep.prop == "C05":
         rep.rule("C05.R16", "two values that differ other than by the documented identifications get different signatures: the pre-images of an integer, a float and None are not "
                             "the pre-image of a string (abstract evaluation of the value hasher on pairs of values of different types)")
         n16 = cross_type_distinct(ctx, "C05.R16")
